@@ -10,9 +10,9 @@
 import Jawk.Lemmas.Fuel
 import Jawk.Model.Run
 import Jawk.Spec.Run
-import Jawk.Props.C14
-import Jawk.Props.C16
-import Jawk.Props.C17
+import Jawk.Props.C14Steps
+import Jawk.Props.C16Steps
+import Jawk.Props.C17Steps
 namespace Jawk.Loc
 open Jawk Reader Fuel
 
